@@ -55,6 +55,13 @@ pub fn gen_cfg(r: &mut Rng, t: &Target) -> DumpCfg {
         c.gregs[libc::REG_RSP as usize] = *r.pick(&[rsp_real, rsp_real, rsp_real + 64, 0x1000, u64::MAX - 15]) as i64;
         cfg.crash = Some(c);
     }
+    // the blamed thread may be absent (a tid that is not a thread of the target)
+    if r.chance(1, 12) {
+        cfg.blamed = 0x3ff0_0000 + r.below(1000) as i32;
+        if let Some(c) = cfg.crash.as_mut() {
+            c.tid = cfg.blamed;
+        }
+    }
     if r.chance(1, 3) {
         cfg.limit = Some(*r.pick(&[1u64, 100_000, 300_000, 1_000_000]));
     }
@@ -81,7 +88,7 @@ pub fn gen_cfg(r: &mut Rng, t: &Target) -> DumpCfg {
 }
 
 pub fn generate(prop: &str, seed: u64, tier: &str, out: &mut dyn std::io::Write) {
-    let (nsmall, nbig, per) = if tier == "thorough" { (150, 30, 4) } else { (14, 2, 2) };
+    let (nsmall, nbig, per) = if tier == "thorough" { (150, 30, 4) } else { (20, 3, 3) };
     for i in 0..(nsmall + nbig) {
         let mut r = Rng::for_case(seed, 1, i);
         let sc = gen_scenario(&mut r, i >= nsmall);
@@ -94,12 +101,41 @@ pub fn generate(prop: &str, seed: u64, tier: &str, out: &mut dyn std::io::Write)
         };
         for k in 0..per {
             let cfg = gen_cfg(&mut r, &t);
+            // sometimes the blamed thread is already traced by somebody else: it cannot be attached
+            let mut tracer = None;
+            if r.chance(1, 8) && t.threads.iter().any(|x| x.tid == cfg.blamed) && t.threads.len() > 1 {
+                tracer = spawn_tracer(cfg.blamed);
+            }
             let c0len = *r.pick(&[0usize, 0, 5, 4096]);
             let c0 = r.bytes(c0len);
             let start = if c0len == 0 { 0 } else { r.below(c0len as u64 + 1) };
             let mut dest = RecDest::new(c0, start);
             let o = dump_case(prop, &format!("t{}-{}-{}", seed, i, k), &t, &cfg, &mut dest, &format!("args={}", sc.args.join(",")));
-            writeln!(out, "{}", o.line).unwrap();
+            writeln!(out, "{}{}", o.line, if tracer.is_some() { " traced=1" } else { "" }).unwrap();
+            if let Some(mut c) = tracer {
+                let _ = c.kill();
+                let _ = c.wait();
+            }
         }
+    }
+}
+
+/// a second process that ptrace-seizes `tid`, so that the dumper's PTRACE_ATTACH fails with EPERM
+pub fn spawn_tracer(tid: i32) -> Option<std::process::Child> {
+    use std::io::BufRead;
+    let exe = std::env::current_exe().ok()?;
+    let mut c = std::process::Command::new(exe)
+        .args(["tracer", "x", &tid.to_string()])
+        .stdout(std::process::Stdio::piped())
+        .spawn()
+        .ok()?;
+    let mut line = String::new();
+    std::io::BufReader::new(c.stdout.take()?).read_line(&mut line).ok()?;
+    if line.trim() == "seized" {
+        Some(c)
+    } else {
+        let _ = c.kill();
+        let _ = c.wait();
+        None
     }
 }
